@@ -477,7 +477,27 @@ func (s *section) init() error {
 	}
 	sort.Strings(src)
 	got := leafKeys(dm, nested, "")
-	if strings.Join(src, ",") != strings.Join(got, ",") {
+	gotSet := map[string]bool{}
+	for _, k := range got {
+		gotSet[k] = true
+	}
+	srcSet := map[string]*field{}
+	for _, f := range fs {
+		srcSet[f.key()] = f
+	}
+	mismatch := false
+	for _, k := range got {
+		if srcSet[k] == nil {
+			mismatch = true
+		}
+	}
+	for k, f := range srcSet {
+		// DisplayJSON shows omitempty settings of the top level only
+		if !gotSet[k] && !(f.omitempty && len(f.path) > 1) {
+			mismatch = true
+		}
+	}
+	if mismatch {
 		return fmt.Errorf("%s: settings read from %s (%v) differ from the keys of ToDisplayJSON (%v): the check does not understand this section", s.name, s.file, src, got)
 	}
 	for _, f := range fs {
